@@ -5,6 +5,7 @@ import (
 	"encoding/json"
 	"fmt"
 	"os"
+	"os/exec"
 	"path/filepath"
 	"runtime"
 	"sync"
@@ -130,6 +131,18 @@ func crashPart(t *testing.T, r *evid.Run, tmp string) {
 					r.Count("crash_points", 1)
 					if !isOld && !isNew {
 						r.Violation("cache-crash-leaves-bad-file", -1, fmt.Sprintf("%s: after the kill the cache file (%d bytes) is neither the old nor the new document", what, len(got)), detail)
+					}
+					// the next process starts in the same directory, whatever the killed one left there, and its first
+					// cache write is a SHORTER document: afterwards the file is exactly that document
+					short := small("s", 1)
+					sp := dir + ".short.json"
+					os.WriteFile(sp, short, 0o600)
+					out, xerr := exec.Command(child, live, sp).CombinedOutput()
+					os.Remove(sp)
+					r.Count("writes_after_a_killed_write", 1)
+					// (xerr is not a verdict: the tracer threads of other workers may reap this child's exit status first)
+					if after, _ := os.ReadFile(live); !bytes.Equal(after, short) {
+						r.Violation("cache-write-after-crash-corrupts", -1, fmt.Sprintf("%s: the next process wrote a %d-byte document over the leftovers; the cache file now holds %d bytes that are not that document (child: %v %s)", what, len(short), len(after), xerr, bytes.TrimSpace(out)), detail)
 					}
 				default:
 					r.Count("io_errors_injected", 1)
